@@ -18,6 +18,7 @@ from .patches import TimeShim, counter_from, patched
 
 logging.getLogger("aiortc").setLevel(logging.CRITICAL)
 
+YIELD_MS = [0, 0, 1, 5, 30, 200, 1200]
 DELAYS_MS = [0, 1, 5, 20, 100, 400, 1500, 4000, 1100, 900, 2200]  # appended values keep the meaning of older replays
 BASE_LATENCY = 0.010
 
@@ -36,6 +37,7 @@ class FakeDtls:
         self._link = link
         self._side = side
         self._data_receiver: Any = None
+        self._sent = 0
 
     def _register_data_receiver(self, receiver: Any) -> None:
         assert self._data_receiver is None
@@ -48,6 +50,19 @@ class FakeDtls:
     async def _send_data(self, data: bytes) -> None:
         if self.state != "connected":
             raise ConnectionError("Cannot send encrypted data, not connected")
+        pattern = self._link.yield_on_send
+        if pattern:
+            # a transport whose send suspends (TURN channel bind / refresh, TCP relay): other tasks of the
+            # endpoint run in between.  The pattern is cycled per datagram of this side: 0 = no suspension,
+            # 1 = one loop iteration, k>1 = YIELD_MS[k] virtual milliseconds
+            k = pattern[self._sent % len(pattern)]
+            self._sent += 1
+            if k == 1:
+                await asyncio.sleep(0)
+            elif k > 1:
+                await asyncio.sleep(YIELD_MS[k % len(YIELD_MS)] / 1000)
+            if self.state != "connected":
+                return
         self._link.send(self._side, data)
 
 
@@ -56,6 +71,7 @@ class Link:
         self.loop = loop
         self.fates = [deque(fates[0]), deque(fates[1])]
         self.healed = False
+        self.yield_on_send = []  # see FakeDtls._send_data
         self.paused = False  # while set, datagrams are delivered normally and no fate is consumed (warm-up phases)
         self.inbox = [deque(), deque()]
         self.wakeup = [asyncio.Event(), asyncio.Event()]
@@ -71,6 +87,8 @@ class Link:
 
     def heal(self) -> None:
         self.healed = True
+        # a recovered network includes the relay: sends may still suspend, but no longer for a length of time
+        self.yield_on_send = [min(k, 1) for k in self.yield_on_send]
         self.fates[0].clear()
         self.fates[1].clear()
 
@@ -187,6 +205,7 @@ class Session:
         self.meter_budget: Optional[Callable[[int, bytes], int]] = None  # per-datagram work budget (C05)
         self.max_work = 0
         self.extra_op: Optional[Callable[[int, dict], None]] = None  # handler for op kinds the simulator does not know
+        self.handing_over: list = [{}, {}]
         self.on_attach: Optional[Callable] = None  # fn(rec, side, channel) when a channel object becomes known
         self.after_each_op: Optional[Callable] = None  # fn(n, op) after every program step (sampling point)
 
@@ -300,6 +319,21 @@ class Session:
             orig_set_state(state)
 
         t._set_state = set_state  # type: ignore[method-assign]
+        # user bytes whose hand-over to the association (RTCSctpTransport._send) is in progress; only non-empty at a
+        # sample point when the datagram send suspends
+        orig_send = t._send
+        handing = self.handing_over[side]
+
+        async def send(stream_id: int, pp_id: int, user_data: bytes, **kw: Any) -> None:
+            if pp_id != 50:
+                handing[stream_id] = handing.get(stream_id, 0) + len(user_data)
+            try:
+                await orig_send(stream_id, pp_id, user_data, **kw)
+            finally:
+                if pp_id != 50:
+                    handing[stream_id] -= len(user_data)
+
+        t._send = send  # type: ignore[method-assign]
 
         def on_dc(ch: RTCDataChannel) -> None:
             self.datachannel_events.append(
@@ -362,6 +396,8 @@ class Session:
         case = self.case
         self.loop = loop
         link = Link(loop, case.get("fates", [[], []]))
+        ys = case.get("yield_send")
+        link.yield_on_send = [1] if ys is True else list(ys or [])
         self.link = link
         client = case.get("client", 0)
         self.dtls = [FakeDtls(link, 0, "controlling" if client == 0 else "controlled"),
